@@ -776,6 +776,112 @@ def pick_small(cases, results, limit=150):
 
 
 # ---------------------------------------------------------------------------
+# DIRECT HISTORIES: the score must be a function of the CONTENTS of (Y, X) at call time — not of array identity, length,
+# or of what an earlier call saw.  Sequences of direct calls in one implementation process.
+
+def gen_direct_histories(rng, flag, count=6):
+    hs = []
+
+    def vec(kind, n, X=None):
+        if kind == "binary":
+            return [rng.randrange(2) for _ in range(n)]
+        if kind == "six":
+            return [rng.randrange(6) for _ in range(n)]
+        if kind == "zeros":
+            return [0] * n
+        if kind == "ident":
+            p = list(range(n))
+            rng.shuffle(p)
+            return p
+        if kind == "skew":
+            return _zipf(rng, n, 5, 2.0)
+        return [x % 2 if rng.random() > 0.1 else 1 - x % 2 for x in X]              # "signal": noisy function of X
+    # the refilled batch buffer: binary -> 6-class -> zeros -> 6-class -> self pair, X fixed
+    for reuse_x in (False, True):
+        n = rng.randint(20, 200)
+        X = [rng.randrange(6) for _ in range(n)]
+        steps = [{"Y": vec(k, n, X), "X": X} for k in ("signal", "six", "zeros", "six", "binary")]
+        steps.append({"Y": vec("six", n), "X": None, "self": True})
+        steps.append({"Y": vec("binary", n), "X": X})
+        hs.append({"kind": "direct-history", "flag": flag, "reuse_y": True, "reuse_x": reuse_x, "steps": steps})
+    # many short-lived arrays of equal length (freed after each call: ids / addresses are recycled)
+    n = rng.randint(16, 120)
+    X = [rng.randrange(4) for _ in range(n)]
+    kinds = ["binary", "six", "zeros", "ident", "skew", "six", "binary", "zeros", "skew", "ident", "six", "binary"]
+    hs.append({"kind": "direct-history", "flag": flag, "reuse_y": False, "reuse_x": False,
+               "steps": [{"Y": vec(k, n, X), "X": X} for k in kinds]})
+    # random mixtures
+    while len(hs) < count:
+        n = rng.randint(6, 150)
+        steps = []
+        for _ in range(rng.randint(3, 7)):
+            X = [rng.randrange(rng.choice([2, 3, 6])) for _ in range(n)]
+            k = rng.choice(["binary", "six", "zeros", "ident", "skew", "signal"])
+            st = {"Y": vec(k, n, X), "X": X}
+            if rng.random() < 0.2:
+                st = {"Y": st["Y"], "X": None, "self": True}
+            steps.append(st)
+        hs.append({"kind": "direct-history", "flag": flag, "reuse_y": rng.random() < 0.7, "reuse_x": rng.random() < 0.5, "steps": steps})
+    for h in hs:
+        for st in h["steps"]:
+            if st.get("self"):
+                st["X"] = list(st["Y"])
+    return hs
+
+
+def direct_history_family(run, pid, histories, clause):
+    """impl (one process, all histories) vs Coq model of every step; violation = the history up to the failing call"""
+    if not histories:
+        return
+    res = vlib.run_impl("impl_c01.py", {"cases": [], "direct_histories": histories}).get("direct_histories", [])
+    flat = [{"Y": st["Y"], "X": st["X"], "flag": h["flag"]} for h in histories for st in h["steps"]]
+    terms = model_terms(pid, flat)
+    k = nbad = ncalls = 0
+    for hi, h in enumerate(histories):
+        rs = res[hi] if hi < len(res) else []
+        failed = False
+        for si, st in enumerate(h["steps"]):
+            t = terms[k]
+            k += 1
+            if failed:
+                continue
+            ncalls += 1
+            run.evaluations += 1
+            r = rs[si] if si < len(rs) else {"ok": False, "error": "no result"}
+            ok, info = compare(flat[k - 1], r, t)
+            if py_terms(st["Y"], st["X"], h["flag"]) != t:
+                run.violation("broken-obligation", "mirror-consistency(py_terms, history step)", found_input=False, extra=[st["Y"][:40], st["X"][:40]])
+            if not ok:
+                failed = True
+                nbad += 1
+                if nbad == 1:
+                    small = dict(h)
+                    small["steps"] = h["steps"][:si + 1]
+                    # try the two-call history (previous call, failing call)
+                    if si >= 2:
+                        two = dict(h)
+                        two["steps"] = h["steps"][si - 1:si + 1]
+                        try:
+                            r2 = vlib.run_impl("impl_c01.py", {"cases": [], "direct_histories": [two]})["direct_histories"][0]
+                            if not compare(flat[k - 1], r2[1], t)[0]:
+                                small = two
+                        except (vlib.Broken, IndexError, KeyError):
+                            pass
+                    run.violation("counterexample", "history of direct calls of mutual_info_estimator_numba (buffers refilled in place / "
+                                  "short-lived arrays)", case=small,
+                                  impl={"call": len(small["steps"]) - 1, "score": info.get("impl", info.get("impl_error"))},
+                                  model={"call": len(small["steps"]) - 1, "value": info["model"], "tolerance": info["tolerance"]},
+                                  clause=clause + " — for the contents of the two vectors AT CALL TIME (the score is a function of (Y, X) only)")
+    run.oblige("history: direct calls on refilled buffers, short-lived equal-length arrays and self pairs = model on the contents at "
+               "call time", nbad == 0, "%d of %d histories fail" % (nbad, len(histories)) if nbad else
+               "%d histories, %d calls" % (len(histories), ncalls))
+    run.cov["direct_histories"] = {"count": len(histories), "calls": ncalls,
+                                   "reuse_y": sum(1 for h in histories if h.get("reuse_y")),
+                                   "reuse_x": sum(1 for h in histories if h.get("reuse_x")),
+                                   "self_pair_calls": sum(1 for h in histories for st in h["steps"] if st.get("self"))}
+
+
+# ---------------------------------------------------------------------------
 
 def check(run, replay):
     ok, log = vlib.build(MODEL_TARGETS)
@@ -786,6 +892,9 @@ def check(run, replay):
 
     if replay is not None and (replay.get("case") or {}).get("kind") == "scale":
         scale_family(run, "C01", [replay["case"]], [], [], "score(Y, X, 1.0, False) = plug-in MI(Y; X)")
+        return
+    if replay is not None and (replay.get("case") or {}).get("kind") == "direct-history":
+        direct_history_family(run, "C01", [replay["case"]], "score(Y, X, 1.0, False) = plug-in MI(Y; X)")
         return
     if replay is not None:
         cases = [replay["case"]]
@@ -808,6 +917,8 @@ def check(run, replay):
     run.cov["input_distribution"] = hist
     run.cov["exhaustive"] = False
     if replay is None:
+        direct_history_family(run, "C01", gen_direct_histories(run.rng, False, 6 if run.tier == "quick" else 30),
+                              "score(Y, X, 1.0, False) = plug-in MI(Y; X) up to single-precision rounding")
         sc, stt = pick_small(cases, results)
         scale_family(run, "C01", scale_specs("C01", run.rng, run.tier), sc, stt,
                      "score(Y, X, 1.0, False) = plug-in MI(Y; X) up to single-precision rounding")
